@@ -29,6 +29,7 @@ type SeqProfile struct {
 	PSchema   float64 // a step is a schema change
 	PSnap     float64 // a step is snapshot -> restore into a fresh collection -> continue there
 	PObserve  float64 // the body looks at the collection from a second transaction (dump) at some point
+	PDelAll   float64 // a body step narrows the selection with a filter and deletes all of it (txn.DeleteAll)
 	SortFirst bool    // create the sorted indexes before any data
 	PDelete   float64
 	PInsert   float64
@@ -354,6 +355,27 @@ func RunSeq(seed int64, p SeqProfile) (out []Ev) {
 			for i := 0; i < nbody; i++ {
 				if g.rnd.Float64() < p.PObserve {
 					g.P.Dump(g.rnd.Intn(3))
+				}
+				if g.rnd.Float64() < p.PDelAll {
+					// With(column or index) leaves only rows holding a value (never a filler row), then DeleteAll
+					names := []string{}
+					for _, d := range g.P.Cols {
+						if d.Kind != "key" {
+							names = append(names, d.Name)
+						}
+					}
+					for _, ix := range g.P.Idx {
+						names = append(names, ix.Name)
+					}
+					if len(names) > 0 {
+						x.Sel()
+						x.Filter(FOp{F: "with", Names: []string{names[g.rnd.Intn(len(names))]}})
+						if g.rnd.Intn(2) == 0 {
+							x.Filter(FOp{F: "without", Names: []string{names[g.rnd.Intn(len(names))]}})
+						}
+						x.DeleteAll()
+						continue
+					}
 				}
 				r := g.rnd.Float64()
 				if p.Keyed {
